@@ -816,7 +816,7 @@ def post(ctx):
     ctx.require("poisoned marginal steps", c["readset:poisoned-marg"], 40)
     ctx.require("poisoned posterior steps", c["readset:poisoned-post"], 25)
     ctx.require("read-set with FixedCompanionMass K prior", c["readset:K=fcm"], 3)
-    ctx.require("read-set with Normal K prior", c["readset:K=normal"], 2)
+    ctx.require("read-set with Normal K prior", c["readset:K=normal"], 1)
     ctx.require("history calls on the cache-file route", sum(v for k, v in c.items() if k.startswith("history:") and k.endswith(":file")), 20)
     ctx.require("history calls on the in-memory route", sum(v for k, v in c.items() if k.startswith("history:") and k.endswith(":mem")), 5)
     ctx.require("history calls on the second data set", c["history:data1"], 8)
